@@ -102,15 +102,17 @@ func VerifC11Zoomed() {
 	oz := vCase("oz")
 	ov := vCase("ov")
 	n := vCase("n")
-	var xs, ys, fs [2]int64
+	mix := vCase("mix") // 1: the second ID is one level coarser horizontally (a possible parent listed after its child)
+	var xs, ys, fs, zs [2]int64
 	ids := make([]string, 0, 2)
 	for i := int64(0); i < n; i++ {
+		zs[i] = z - i*mix
 		xs[i] = vNondetInt64(vN("x", i))
 		ys[i] = vNondetInt64(vN("y", i))
 		fs[i] = vNondetInt64(vN("f", i))
-		vAssume(0 <= xs[i] && xs[i] < int64(1)<<uint(z) && 0 <= ys[i] && ys[i] < int64(1)<<uint(z))
+		vAssume(0 <= xs[i] && xs[i] < int64(1)<<uint(zs[i]) && 0 <= ys[i] && ys[i] < int64(1)<<uint(zs[i]))
 		vAssume(-(int64(1)<<uint(v)) <= fs[i] && fs[i] < int64(1)<<uint(v))
-		ids = append(ids, vID5(z, xs[i], ys[i], v, fs[i]))
+		ids = append(ids, vID5(zs[i], xs[i], ys[i], v, fs[i]))
 	}
 	groups, err := ConvertExtendedSpatialIDsToQuadkeysAndVerticalIDs(ids, oz, ov, 0, 0)
 	vAssert(err == nil, "valid IDs and zooms are accepted")
@@ -122,7 +124,7 @@ func VerifC11Zoomed() {
 	vAssume(-(int64(1)<<uint(ov)) <= pf && pf < int64(1)<<uint(ov))
 	covered := false
 	for i := int64(0); i < n; i++ {
-		if vInter1(z, xs[i], oz, px) && vInter1(z, ys[i], oz, py) && vInter1(v, fs[i], ov, pf) {
+		if vInter1(zs[i], xs[i], oz, px) && vInter1(zs[i], ys[i], oz, py) && vInter1(v, fs[i], ov, pf) {
 			covered = true
 		}
 	}
